@@ -126,20 +126,30 @@ theorem tol_matches (T : Nat) (rel t : Rat) (h0 : 0 ≤ t) (h1 : t ≤ 1)
 
 /-- **(3) `legacy_eval_times`.**  The list `_get_legacy_evaluation_times` hands to the legacy
 emulator (union of the default times — `"Full"` expanded through the sampling indices — and of
-every observable's own times, in µs) is strictly ascending, hence duplicate free, and lies
-inside `[0, T/1000]`. -/
+every observable's own times, in µs, clipped to the duration) is strictly ascending, hence
+duplicate free, and lies inside `[0, T/1000]`. -/
 theorem legacy_eval_times (dflt : DefaultTimes) (extras : List Rat) (T m : Nat) (hT : T ≠ 0)
     (hsorted : ∀ l, dflt = .times l → l.Pairwise (· < ·))
     (hd : ∀ l, dflt = .times l → ∀ x ∈ l, 0 ≤ x ∧ x ≤ 1)
     (he : ∀ x ∈ extras, 0 ≤ x ∧ x ≤ 1) (r : List Rat)
     (h : legacyEvalTimes dflt extras T m = some r) :
     r.Pairwise (· < ·) ∧ ∀ x ∈ r, 0 ≤ x ∧ x ≤ (T : Rat) / 1000 :=
-  ⟨legacyEvalTimes_sorted dflt extras T m hT hsorted r h,
+  ⟨legacyEvalTimes_sorted dflt extras T m hT hsorted hd he r h,
    legacyEvalTimes_bounds dflt extras T m hT hd he r h⟩
 
-/-- **(4)** Hence — over the rationals — `set_evaluation_times` never rejects it ("extends further
-than sequence duration"), for *every* duration `T`, and returns it with the two end points.
-(In float64 this fails for 13 % of the durations, e.g. `1.0·52·10⁻³ > 52/1000`: new finding.) -/
+/-- The clipping added by the repair of finding F30 makes the upper bound unconditional — this is
+the statement that also survives float64 rounding (`min(x, b) ≤ b`) — and changes nothing over
+the rationals for relative times in `[0, 1]`. -/
+theorem legacy_eval_times_clipped (dflt : DefaultTimes) (extras : List Rat) (T m : Nat) :
+    (∀ r, legacyEvalTimes dflt extras T m = some r → ∀ x ∈ r, x ≤ (T : Rat) / 1000) ∧
+    (T ≠ 0 → (∀ l, dflt = .times l → ∀ x ∈ l, 0 ≤ x ∧ x ≤ 1) → (∀ x ∈ extras, 0 ≤ x ∧ x ≤ 1) →
+      legacyEvalTimes dflt extras T m = legacyEvalTimesRaw dflt extras T m) :=
+  ⟨fun r h => legacyEvalTimes_le dflt extras T m r h,
+   fun hT hd he => legacyEvalTimes_eq_raw dflt extras T m hT hd he⟩
+
+/-- **(4)** Hence `set_evaluation_times` never rejects it ("extends further than sequence
+duration"), for *every* duration `T`, and returns it with the two end points.  (Before the repair
+of F30 this failed in float64 for 13 % of the durations, e.g. `1.0·52·10⁻³ > 52/1000`.) -/
 theorem legacy_pipeline_total (dflt : DefaultTimes) (extras : List Rat) (T m : Nat) (hT : T ≠ 0)
     (hd : ∀ l, dflt = .times l → ∀ x ∈ l, 0 ≤ x ∧ x ≤ 1)
     (he : ∀ x ∈ extras, 0 ≤ x ∧ x ≤ 1) (r : List Rat)
@@ -156,8 +166,8 @@ example : legacyEvalTimes .full [1/2] 8 4 = some [0, 1/500, 1/250, 7/1000] := by
 
 /-- **`config_recreate_idempotent`.**  `EmulatorBackend.__init__` re-creates the configuration
 from the options the first construction stored; on the model of `EmulationConfig.__init__`
-this always succeeds and changes nothing.  (The tree breaks this for ≥ 2 default evaluation
-times under numpy 2: finding F10.) -/
+this always succeeds and changes nothing.  (The tree broke this for ≥ 2 default evaluation
+times under numpy 2 — finding F10, repaired: `"Full"` is now compared as a string only.) -/
 theorem config_recreate_idempotent (a c : CfgArgs) (h : cfgInit a = .ok c) : cfgInit c = .ok c :=
   cfgInit_idempotent a c h
 
